@@ -18,20 +18,6 @@ structure St where
   begunLeaving : Bool := false
   deriving Inhabited
 
-/-- the Lamport time of the leave claim about the local node carried by a harness op, if any -/
-def selfClaim (prev : Obs) : HOp → Option Nat
-  | .ops [.leaveMsg x lt _ _] => if x == selfName then some lt else none
-  | .ops [.forceLeave x _ _] => if x == selfName then some prev.clock else none
-  | .ops [.merge _ status left _] =>
-    if left.contains selfName then some ((((alookup status selfName).getD 0) + 1) % two64) else none
-  | _ => none
-
-def begins : HOp → Bool
-  | .leave _ => true
-  | .ops [.shutdown] => true
-  | .ops [.nodeLeave x _] => x == selfName
-  | _ => false
-
 def kvNat (impl : String) (k : String) : Option Nat :=
   (impl.splitOn " ").findSome? fun t => match t.splitOn "=" with
     | [k', v] => if k' == k then v.toNat? else none
@@ -63,19 +49,13 @@ def step (s : St) (f : List String) (impl : String) : LineOut St :=
     match parseObs impl with
     | none => { state := { s with base := { s.base with node := n' } }, model := some out, monitor := some ("malformed", impl) }
     | some o =>
-      let begun := s.begunLeaving || begins h
+      let begun := s.begunLeaving || beginsLeaving h
       let alive : Option (String × String) :=
         if !begun && o.statusOf selfName != some .alive then
           some ("self-not-alive", "the node has not begun leaving but does not list itself as alive")
         else none
       let refute : Option (String × String) :=
-        match selfClaim s.base.prev h with
-        | some lt =>
-          if !begun && lt < two64 - 1 && (match s.base.prev.ltimeOf selfName with | some t => decide (t < lt) | none => false)
-             && !(o.queue.any fun m => match m with | .join x t => x == selfName && decide (lt < t) | _ => false) then
-            some ("no-refutation", s!"claim about the running local node at time {lt} was not refuted by a join with a greater time")
-          else none
-        | none => none
+        (refutationFailure begun s.base.prev o h).map fun msg => ("no-refutation", msg)
       { state := { base := { node := n', prev := o }, begunLeaving := begun }, model := some out,
         monitor := firstSome [alive, refute] }
 
